@@ -230,22 +230,37 @@ Qed.
 Lemma read_response_scope_wf opts px : read_response_scope opts = Some px ->
   exists l sub a, opts = Some l /\ first_ecs l = Some sub /\ e_scope sub <> 0 /\
     ip_to_addr (e_addr sub) = Some a /\ e_family sub = (if a_is4 a then 1 else 2) /\
-    p_is4 px = a_is4 a /\ p_bits px = e_scope sub /\ p_bits px <= awidth (a_is4 a) /\ 1 <= p_bits px /\
-    p_val px = mask_val (a_is4 a) (a_val a) (e_scope sub).
+    p_is4 px = a_is4 a /\ p_bits px = N.min (e_scope sub) (awidth (a_is4 a)) /\
+    p_bits px <= awidth (a_is4 a) /\ 1 <= p_bits px /\
+    p_val px = mask_val (a_is4 a) (a_val a) (p_bits px).
 Proof.
-  unfold read_response_scope. destruct opts as [l|]; [|discriminate].
+  unfold read_response_scope, scope_bits. destruct opts as [l|]; [|discriminate].
   destruct (first_ecs l) as [sub|] eqn:EF; [|discriminate].
   destruct (N.eqb_spec (e_scope sub) 0) as [|Hs]; [discriminate|].
   destruct (ip_to_addr (e_addr sub)) as [a|] eqn:EA; [|discriminate].
   change family_v4 with 1. change family_v6 with 2.
   destruct (N.eqb_spec (e_family sub) 1) as [F1|F1].
   - destruct (a_is4 a) eqn:E4; [|discriminate]. intros H. apply addr_prefix_some in H.
-    destruct H as [Hb [Hf [Hbits Hv]]]. rewrite E4 in *.
-    exists l, sub, a. rewrite E4. repeat split; try assumption; try lia.
+    destruct H as [Hb [Hf [Hbits Hv]]]. rewrite E4 in *. cbn [awidth] in *.
+    exists l, sub, a. rewrite E4. cbn [awidth]. rewrite Hbits. repeat split; try assumption; try lia.
   - destruct (N.eqb_spec (e_family sub) 2) as [F2|F2]; [|discriminate].
     destruct (a_is4 a) eqn:E4; cbn [negb]; [discriminate|]. intros H. apply addr_prefix_some in H.
-    destruct H as [Hb [Hf [Hbits Hv]]]. rewrite E4 in *.
-    exists l, sub, a. rewrite E4. repeat split; try assumption; try lia.
+    destruct H as [Hb [Hf [Hbits Hv]]]. rewrite E4 in *. cbn [awidth] in *.
+    exists l, sub, a. rewrite E4. cbn [awidth]. rewrite Hbits. repeat split; try assumption; try lia.
+Qed.
+
+(* the overlong SCOPE is read as the whole address: never an error for a well-formed option *)
+Lemma read_response_scope_overlong l sub a :
+  first_ecs l = Some sub -> e_scope sub <> 0 -> ip_to_addr (e_addr sub) = Some a ->
+  e_family sub = (if a_is4 a then 1 else 2) ->
+  exists px, read_response_scope (Some l) = Some px /\ p_bits px = N.min (e_scope sub) (awidth (a_is4 a)).
+Proof.
+  intros EF Hs EA Hfam. unfold read_response_scope, scope_bits. rewrite EF.
+  destruct (N.eqb_spec (e_scope sub) 0) as [|_]; [contradiction|]. rewrite EA.
+  change family_v4 with 1. change family_v6 with 2. rewrite Hfam.
+  destruct (a_is4 a) eqn:E4; cbn [N.eqb Pos.eqb negb awidth].
+  - rewrite addr_prefix_ok by (rewrite E4; cbn; lia). eexists. split; reflexivity.
+  - rewrite addr_prefix_ok by (rewrite E4; cbn; lia). eexists. split; reflexivity.
 Qed.
 
 (* ------------------------------------------------------------------ ClampScope *)
